@@ -14,7 +14,7 @@ import genlib as G
 
 A = "routee-compass-core/src/algorithm/search/"
 OBLIGATIONS = ["run_a_star", "advance_search", "get_last_traversed_edge_id", "tree_key_vertex_id", "terminal_vertex_id",
-               "lemma_no_revisit", "lemma_iteration_limit", "lemma_size_limit", "lemma_route_edges_permitted", "lemma_closed_step"]
+               "lemma_no_revisit", "lemma_iteration_limit", "lemma_size_limit", "lemma_route_edges_permitted", "lemma_closed_step", "lemma_reachable_is_labelled", "lemma_no_path_means_unreachable"]
 MUST_FAIL = ["vacuity_probe"]
 
 HEAD = """#![allow(unused_imports, unused_variables, dead_code, unused_mut, unused_parens, unused_assignments)]
@@ -380,6 +380,64 @@ pub proof fn lemma_closed_step(si: &SearchInstance, d: Direction, source: Vertex
         assert(permitted(&si.frontier_model, edge_of(g, eid), s0, l0));
         assert(false);
     }
+}
+/// a path of the graph in the search direction that the (edge-local) frontier model lets through: vertex k+1 is the far end of the idx[k]-th incident edge of vertex k
+pub open spec fn permitted_path(si: &SearchInstance, d: Direction, path: Seq<VertexId>, idx: Seq<int>) -> bool {
+    &&& path.len() >= 1 && idx.len() == path.len() - 1
+    &&& forall|k: int| 0 <= k < idx.len() ==> {
+            let inc = incident(&si.directed_graph, d, #[trigger] path[k]);
+            &&& 0 <= idx[k] < inc.len()
+            &&& path[k + 1] == key_spec(d, edge_of(&si.directed_graph, inc[idx[k]]))
+            &&& forall|s: Seq<StateVar>, last: Option<Edge>| permitted(&si.frontier_model, edge_of(&si.directed_graph, inc[idx[k]]), s, last)
+        }
+}
+pub open spec fn edge_local(fm: &FrontierModel) -> bool {
+    forall|e: Edge, s1: Seq<StateVar>, l1: Option<Edge>, s2: Seq<StateVar>, l2: Option<Edge>| permitted(fm, e, s1, l1) == permitted(fm, e, s2, l2)
+}
+/// C05 "only if", the whole argument: when the queue is exhausted, EVERY vertex that a permitted path from the source reaches is labelled (induction on the path)
+pub proof fn lemma_reachable_is_labelled(si: &SearchInstance, d: Direction, source: VertexId, target: Option<VertexId>, t: Map<VertexId, SearchTreeBranch>, labels: Map<VertexId, Cost>,
+                                         expanded: Set<VertexId>, refused: Set<EdgeId>, path: Seq<VertexId>, idx: Seq<int>)
+    requires search_inv(si, d, source, target, t, labels, Set::<VertexId>::empty(), expanded, refused), edge_local(&si.frontier_model),
+             permitted_path(si, d, path, idx), path[0] == source
+    ensures labels.contains_key(path.last())
+    decreases path.len()
+{
+    let g = &si.directed_graph;
+    if path.len() == 1 { assert(path.last() == path[0]); }
+    else {
+        let n = path.len() as int;
+        let p2 = path.drop_last(); let i2 = idx.drop_last();
+        assert(permitted_path(si, d, p2, i2)) by {
+            assert forall|k: int| 0 <= k < i2.len() implies ({
+                let inc = incident(g, d, #[trigger] p2[k]);
+                &&& 0 <= i2[k] < inc.len() && p2[k + 1] == key_spec(d, edge_of(g, inc[i2[k]]))
+                &&& forall|s: Seq<StateVar>, last: Option<Edge>| permitted(&si.frontier_model, edge_of(g, inc[i2[k]]), s, last) }) by {
+                assert(p2[k] == path[k]); assert(p2[k + 1] == path[k + 1]); assert(i2[k] == idx[k]);
+            }
+        }
+        lemma_reachable_is_labelled(si, d, source, target, t, labels, expanded, refused, p2, i2);
+        let v = path[n - 2]; let i = idx[n - 2];
+        assert(p2.last() == v);
+        assert(labels.contains_key(v));
+        let eid = incident(g, d, v)[i];
+        // v is labelled and the queue is empty, so v was expanded; its i-th incident edge was not refused (the model lets it through for every state)
+        assert(expanded.contains(v));
+        if refused.contains(eid) {
+            let (s0, l0) = choose|s: Seq<StateVar>, last: Option<Edge>| !(#[trigger] permitted(&si.frontier_model, edge_of(g, eid), s, last));
+            assert(permitted(&si.frontier_model, edge_of(g, eid), s0, l0));
+            assert(false);
+        }
+        assert(path.last() == path[n - 1]);
+    }
+}
+/// C05 "only if": when the search reports "no path", NO permitted path from the source ends at the target
+pub proof fn lemma_no_path_means_unreachable(si: &SearchInstance, d: Direction, source: VertexId, tv: VertexId, path: Seq<VertexId>, idx: Seq<int>)
+    requires nopath_post(si, d, source, tv), edge_local(&si.frontier_model), permitted_path(si, d, path, idx), path[0] == source
+    ensures path.last() != tv
+{
+    let (t, labels, expanded, refused) = choose|t: Map<VertexId, SearchTreeBranch>, labels: Map<VertexId, Cost>, expanded: Set<VertexId>, refused: Set<EdgeId>|
+        #[trigger] search_inv(si, d, source, Some(tv), t, labels, Set::<VertexId>::empty(), expanded, refused) && !labels.contains_key(tv);
+    lemma_reachable_is_labelled(si, d, source, Some(tv), t, labels, expanded, refused, path, idx);
 }
 """
 
